@@ -129,6 +129,11 @@ func (k Keeper) GetNextSuperNodes(ctx sdk.Context, status uint32, reputation flo
 	}
 
 	snodes := k.GetAllSuperNodes(ctx)
+	if int(round[0]) >= len(snodes) {
+		// the set of super nodes shrank below the stored cursor: start over,
+		// otherwise the stop condition below (i == round-1) is never reached
+		round = []byte{0}
+	}
 	i := uint8(round[0])
 	if len(snodes) > 0 {
 		for {
